@@ -64,9 +64,15 @@ pub struct FaultyBroker {
     pub commits: Mutex<Vec<(String, u64)>>,
     /// successful commits for the ordering clause: (trace index, dst proxy, src proxy, cluster epoch after the commit)
     pub commit_marks: Mutex<Vec<(usize, String, String, u64)>>,
+    /// every commit request that reached the broker (for stale replays)
+    pub sent: Mutex<Vec<MigrationTaskMeta>>,
 }
 
 impl FaultyBroker {
+    pub fn new(svc: Arc<MemBrokerService>, net: Arc<Net>, ctl: Arc<CrashCtl>) -> FaultyBroker {
+        FaultyBroker { svc, net, ctl, commits: Mutex::new(vec![]), commit_marks: Mutex::new(vec![]), sent: Mutex::new(vec![]) }
+    }
+
     async fn gate(&self, kind: &str, to: &str) -> Result<Option<Fault>, ()> {
         if self.ctl.on_call() {
             never::<()>().await;
@@ -218,6 +224,7 @@ impl MetaManipulationBroker for FaultyBroker {
             if matches!(f, Some(Fault::DropRequest)) {
                 return Err(MetaManipulationBrokerError::Io(io_err()));
             }
+            self.sent.lock().push(meta.clone());
             let mut r = self.svc.commit_migration(meta.clone()).await;
             if r.is_ok() {
                 self.commits.lock().push((key.clone(), epoch));
@@ -295,6 +302,8 @@ pub enum Step {
     Restart { p: u8 },
     Kill { p: u8 },
     Pause { ms: u16 },
+    /// a stale duplicate of an earlier commit request reaches the broker now (delayed delivery)
+    ReplayCommit { k: u8 },
 }
 
 #[derive(Debug, Clone, Serialize, Deserialize)]
@@ -347,7 +356,33 @@ fn step() -> impl Strategy<Value = Step> {
         1 => any::<u8>().prop_map(|p| Step::Restart { p }),
         1 => any::<u8>().prop_map(|p| Step::Kill { p }),
         3 => (1u16..400).prop_map(|ms| Step::Pause { ms }),
+        2 => any::<u8>().prop_map(|k| Step::ReplayCommit { k }),
     ]
+}
+
+/// scale out, commit everything, scale back in (the same ranges move back), with stale commit
+/// requests of the first migration arriving during the second
+fn there_and_back() -> impl Strategy<Value = Vec<Step>> {
+    (any::<u8>(), prop::collection::vec(any::<u8>(), 1..4), prop::collection::vec(step(), 0..6)).prop_map(|(k, replays, mut tail)| {
+        let mut v = vec![
+            Step::ScaleOut { k },
+            Step::Sync { c: 0 },
+            Step::Pause { ms: 300 },
+            Step::Mig { c: 0 },
+            Step::Sync { c: 0 },
+            Step::Mig { c: 0 },
+            Step::Sync { c: 0 },
+            Step::ScaleDown { k: 0 },
+            Step::Sync { c: 0 },
+        ];
+        for r in replays {
+            v.push(Step::ReplayCommit { k: r });
+        }
+        v.push(Step::Pause { ms: 300 });
+        v.push(Step::Mig { c: 1 });
+        v.append(&mut tail);
+        v
+    })
 }
 
 pub fn strategy() -> impl Strategy<Value = CCase> {
@@ -355,7 +390,7 @@ pub fn strategy() -> impl Strategy<Value = CCase> {
         prop::collection::vec(2u8..=3, 3..=4),
         prop_oneof![Just(0u64), Just(1u64), Just(2u64)],
         any::<bool>(),
-        (1u8..=2, prop::collection::vec(step(), 4..22)),
+        (1u8..=2, prop_oneof![4 => prop::collection::vec(step(), 4..22), 1 => there_and_back()]),
         prop::collection::vec((0u8..10, prop_oneof![3 => Just(255u8), 2 => 0u8..8], 1u8..5, fault_kind()), 0..=3),
         prop_oneof![2 => Just(None), 1 => (0u8..22, 1u8..20).prop_map(Some)],
     )
@@ -526,7 +561,7 @@ async fn run(case: &CCase, obs: &mut Obs) -> Result<(), Fail> {
     let _ = broker_config;
     let world = World::new();
     let ctl = Arc::new(CrashCtl::default());
-    let broker = Arc::new(FaultyBroker { svc: svc.clone(), net: world.net.clone(), ctl: ctl.clone(), commits: Mutex::new(vec![]), commit_marks: Mutex::new(vec![]) });
+    let broker = Arc::new(FaultyBroker::new(svc.clone(), world.net.clone(), ctl.clone()));
     let mut cw = CW { world, svc: svc.clone(), broker, ctl, compress: case.compress, addrs: vec![], killed: BTreeSet::new(), last_epoch: BTreeMap::new() };
     // register proxies, create their world instances
     let opts = ProxyOpts::default();
@@ -625,6 +660,33 @@ async fn run(case: &CCase, obs: &mut Obs) -> Result<(), Fail> {
             }
             Step::Pause { ms } => {
                 tokio::time::sleep(Duration::from_millis(*ms as u64)).await;
+                false
+            }
+            Step::ReplayCommit { k } => {
+                let sent = cw.broker.sent.lock().clone();
+                if !sent.is_empty() {
+                    let meta = sent[(*k as usize) % sent.len()].clone();
+                    let key = format!("{}", meta.slot_range.range_list);
+                    let epoch = meta.slot_range.tag.get_migration_meta().map(|m| m.epoch).unwrap_or(0);
+                    let already = cw.broker.commits.lock().contains(&(key.clone(), epoch));
+                    obs.class(if already { "stale-commit-replayed(after-its-commit)" } else { "commit-replayed(before-its-commit)" });
+                    let store = cw.store().await;
+                    let same_range_running = store.clusters.values().any(|c| c.chunks.iter().any(|ch| ch.migrating_slots.iter().flatten().any(|m| format_ranges(&m.range_list) == key && m.meta.epoch != epoch)));
+                    if same_range_running {
+                        obs.class("stale-commit-replayed-while-the-same-range-migrates-again");
+                    }
+                    if cw.svc.commit_migration(meta).await.is_ok() {
+                        ensure!(
+                            !already,
+                            "C07:migration-committed-twice",
+                            "a delayed duplicate of the commit request for migration {} (migration epoch {}) was accepted by the broker although that migration had been committed before{}",
+                            key,
+                            epoch,
+                            if same_range_running { "; it ended a NEWER, unfinished migration of the same range" } else { "" }
+                        );
+                        cw.broker.commits.lock().push((key, epoch));
+                    }
+                }
                 false
             }
         };
@@ -887,7 +949,7 @@ async fn run_adopt(case: &AdoptCase, obs: &mut Obs) -> Result<(), Fail> {
     let svc = Arc::new(brokersim::new_service(&cfg, None).map_err(|e| Fail::new("harness:broker", e))?);
     let world = World::new();
     let ctl = Arc::new(CrashCtl::default());
-    let broker = Arc::new(FaultyBroker { svc: svc.clone(), net: world.net.clone(), ctl: ctl.clone(), commits: Mutex::new(vec![]), commit_marks: Mutex::new(vec![]) });
+    let broker = Arc::new(FaultyBroker::new(svc.clone(), world.net.clone(), ctl.clone()));
     let mut cw = CW { world, svc: svc.clone(), broker, ctl, compress: case.compress, addrs: vec![], killed: BTreeSet::new(), last_epoch: BTreeMap::new() };
     let opts = ProxyOpts::default();
     for (h, n) in case.hosts.iter().enumerate() {
@@ -941,7 +1003,7 @@ async fn run_adopt(case: &AdoptCase, obs: &mut Obs) -> Result<(), Fail> {
             Step::Handle { .. } => {
                 cw.round(cw.handle_round()).await;
             }
-            Step::Restart { .. } => {}
+            Step::Restart { .. } | Step::ReplayCommit { .. } => {}
             Step::Kill { p } => {
                 let a = cw.addrs[*p as usize % cw.addrs.len()].clone();
                 cw.world.net.gate.down.lock().insert(a.clone());
@@ -966,7 +1028,7 @@ async fn run_adopt(case: &AdoptCase, obs: &mut Obs) -> Result<(), Fail> {
     }
     let svc2 = Arc::new(brokersim::new_service(&cfg, Some(snap)).map_err(|e| Fail::new("harness:restart", e))?);
     cw.svc = svc2.clone();
-    cw.broker = Arc::new(FaultyBroker { svc: svc2.clone(), net: cw.world.net.clone(), ctl: cw.ctl.clone(), commits: Mutex::new(vec![]), commit_marks: Mutex::new(vec![]) });
+    cw.broker = Arc::new(FaultyBroker::new(svc2.clone(), cw.world.net.clone(), cw.ctl.clone()));
     // epoch recovery with the largest epoch held by any reachable proxy (what recover_epoch collects)
     let mut max_epoch = 0u64;
     let mut held: BTreeMap<String, u64> = BTreeMap::new();
@@ -1109,4 +1171,10 @@ pub fn run_prop(ctx: &Ctx, findings: &Findings) -> PropReport {
         ],
         extra: Default::default(),
     }
+}
+
+/// the text form `RangeList`'s Display produces
+fn format_ranges(r: &brokersim::VRanges) -> String {
+    let parts: Vec<String> = r.iter().map(|(a, b)| if a == b { format!("{}", a) } else { format!("{}-{}", a, b) }).collect();
+    format!("[{}]", parts.join(", "))
 }
